@@ -21,6 +21,8 @@ pub enum ReadKind {
     Predecessors,
     Preceding,
     Following,
+    PrecedingRev,
+    FollowingRev,
     Children,
     ChildrenRev,
     ReverseChildren,
@@ -33,11 +35,13 @@ pub enum ReadKind {
     Iter,
     Pretty,
 }
-pub const KINDS: [ReadKind; 15] = [
+pub const KINDS: [ReadKind; 17] = [
     ReadKind::Ancestors,
     ReadKind::Predecessors,
     ReadKind::Preceding,
     ReadKind::Following,
+    ReadKind::PrecedingRev,
+    ReadKind::FollowingRev,
     ReadKind::Children,
     ReadKind::ChildrenRev,
     ReadKind::ReverseChildren,
@@ -103,7 +107,10 @@ pub fn build_arena(rng: &mut Rng, steps: usize, max_live: usize) -> Arena<String
                 let _ = x.checked_prepend(y, &mut a);
             }
             4 | 5 => {
-                let _ = x.checked_insert_after(y, &mut a);
+                // top-level sibling chains: prefer a parentless target
+                let roots: Vec<NodeId> = live.iter().copied().filter(|i| a[*i].parent().is_none()).collect();
+                let t = if !roots.is_empty() && rng.coin() { *rng.pick(&roots) } else { x };
+                let _ = t.checked_insert_after(y, &mut a);
             }
             6 => {
                 let _ = x.checked_insert_before(y, &mut a);
@@ -153,6 +160,8 @@ pub fn eval(arena: &Arena<String>, r: Read, pause: &dyn Fn()) -> u64 {
         ReadKind::Predecessors => walk!(n.predecessors(arena)),
         ReadKind::Preceding => walk!(n.preceding_siblings(arena)),
         ReadKind::Following => walk!(n.following_siblings(arena)),
+        ReadKind::PrecedingRev => walk!(n.preceding_siblings(arena).rev()),
+        ReadKind::FollowingRev => walk!(n.following_siblings(arena).rev()),
         ReadKind::Children => walk!(n.children(arena)),
         ReadKind::ChildrenRev => walk!(n.children(arena).rev()),
         ReadKind::ReverseChildren => walk!(n.reverse_children(arena)),
@@ -239,6 +248,15 @@ pub fn build_scenario(seed: u64, threads: usize, reads_per_thread: usize, steps:
     for _ in 0..threads {
         let mut v = Vec::new();
         for _ in 0..reads_per_thread {
+            // a third of the reads go to the double-ended sibling iterators of parentless nodes
+            let roots: Vec<NodeId> = live.iter().copied().filter(|i| arena[*i].parent().is_none()).collect();
+            if !roots.is_empty() && rng.chance(1, 3) {
+                v.push(Read {
+                    kind: *rng.pick(&[ReadKind::FollowingRev, ReadKind::PrecedingRev, ReadKind::Following, ReadKind::Preceding]),
+                    node: *rng.pick(&roots),
+                });
+                continue;
+            }
             v.push(Read {
                 kind: *rng.pick(&KINDS),
                 node: *rng.pick(&live),
@@ -265,4 +283,69 @@ pub fn scenario_digest(s: &Scenario) -> u64 {
     }
     h.u64(s.arena.count() as u64);
     h.0
+}
+
+/// "Hammer" scenario for the Miri leg: several top-level sibling chains with subtrees, and
+/// threads that issue many reads on *different* start nodes at the same time. Any per-arena
+/// state written by readers (a memo, a cursor cache) is under maximal contention here.
+pub fn build_hammer(seed: u64, threads: usize, reads_per_thread: usize) -> Scenario {
+    let mut rng = Rng::new(seed ^ 0x68616d6d6572);
+    let mut a: Arena<String> = Arena::new();
+    let chains = 2 + rng.usize_below(2);
+    let mut heads = Vec::new();
+    let mut serial = 0;
+    let mut mk = || {
+        serial += 1;
+        format!("h{}", serial)
+    };
+    // a removed slot in front, so positions and ids are not aligned
+    let junk = a.new_node(mk());
+    for _ in 0..chains {
+        let head = a.new_node(mk());
+        let mut last = head;
+        for _ in 0..(1 + rng.usize_below(3)) {
+            let n = a.new_node(mk());
+            last.insert_after(n, &mut a);
+            last = n;
+            if rng.coin() {
+                let c = n.append_value(mk(), &mut a);
+                if rng.coin() {
+                    c.append_value(mk(), &mut a);
+                }
+            }
+        }
+        heads.push(head);
+    }
+    junk.remove(&mut a);
+    let live = live_ids(&a);
+    let tops: Vec<NodeId> = live.iter().copied().filter(|i| a[*i].parent().is_none()).collect();
+    let mut reads = Vec::new();
+    for t in 0..threads {
+        let mut v = Vec::new();
+        for i in 0..reads_per_thread {
+            let kind = *rng.pick(&[
+                ReadKind::FollowingRev,
+                ReadKind::FollowingRev,
+                ReadKind::PrecedingRev,
+                ReadKind::Following,
+                ReadKind::Preceding,
+                ReadKind::Children,
+                ReadKind::ChildrenRev,
+                ReadKind::Descendants,
+                ReadKind::GetNodeIdAt,
+                ReadKind::Get,
+            ]);
+            // each thread prefers its own chain head, so concurrent calls have different arguments
+            let node = if i % 2 == 0 { heads[t % heads.len()] } else { *rng.pick(&tops) };
+            v.push(Read { kind, node });
+        }
+        reads.push(v);
+    }
+    let expected = reads.iter().map(|v| v.iter().map(|r| eval(&a, *r, &|| {})).collect()).collect();
+    Scenario {
+        arena: a,
+        live,
+        reads,
+        expected,
+    }
 }
